@@ -237,6 +237,7 @@ func checkC12(c *Ctx) {
 	// the common tags freeBytes was computed from are the common tags every datagram carries: a published
 	// tag slice never goes back to a pool (shared with C13 O8)
 	c.checkPublishedNotRecycled("O7 published-not-recycled")
+	c.checkBucketOwnTemplate("O4b bucket-own-template")
 	c.checkOwnResourcePool("O8 own-resource-pool")
 }
 
@@ -823,4 +824,52 @@ func (c *Ctx) checkOwnResourcePool(rule string) {
 	}
 	c.check(same, rule, key, call.Pos(), "the pool is built in NewReporter from the same protocol factory the client emits with",
 		"the resource pool is not built from the protocol factory the client emits with: sizes are measured with a different wire protocol than the one used on the wire", c.describe(call))
+}
+
+// checkBucketOwnTemplate (O4b): every bucket handle of a cached histogram has a metric template of its
+// own, allocated in the iteration that builds the handle. The size charged for a bucket is written into
+// that template; one template shared by all buckets is charged the size of whichever bucket was sized
+// last while each bucket emits its own (possibly longer) tags.
+func (c *Ctx) checkBucketOwnTemplate(rule string) {
+	const pk = "m3"
+	fM := c.field(pk, "cachedHistogramBucket", "metric")
+	fn := c.fn(pk, "reporter", "AllocateHistogram")
+	if fM == nil || fn == nil {
+		c.missing(rule, "m3.cachedHistogramBucket.metric / reporter.AllocateHistogram")
+		return
+	}
+	key := c.fnKey(fn)
+	c.sawFunc(key)
+	n := 0
+	okAll := true
+	instrsOf(fn, func(in ssa.Instruction) {
+		st, ok := in.(*ssa.Store)
+		if !ok {
+			return
+		}
+		if f, _ := addrField(st.Addr); f != fM {
+			return
+		}
+		n++
+		lp := innermostLoop(loopsOf(fn), st.Block())
+		al, isAl := stripConv(st.Val).(*ssa.Alloc)
+		switch {
+		case lp == nil:
+			okAll = false
+			c.bad(rule, key, st.Pos(), "the bucket handle is not built inside the per-bucket loop", c.describe(st))
+		case !isAl:
+			okAll = false
+			c.bad(rule, key, st.Pos(), "the bucket handle's metric template is not a variable allocated by this function", c.describe(st))
+		case !lp.Blocks[al.Block()]:
+			okAll = false
+			c.bad(rule, key, st.Pos(), "all bucket handles share one metric template (it is allocated outside the per-bucket loop): the size written for each bucket overwrites the previous one, so every bucket is charged the size of the last bucket while it emits its own tags - packets fill beyond the limit", c.describe(st), "template: "+c.describe(al))
+		}
+	})
+	if n == 0 {
+		c.bad(rule, key, fn.Pos(), "no bucket handle receives a metric template")
+		return
+	}
+	if okAll {
+		c.ok(rule, key, fn.Pos(), "each bucket handle gets a metric template allocated in its own iteration")
+	}
 }
